@@ -143,6 +143,14 @@ def make_case(rng, double=False, nx=None, nt=None, span=None, n_baths=None, n_st
         trans += [float(x[i]) if on_grid else float(x[i] - 0.5 * (x[i] - x[i - 1])) for i, on_grid in layout.get("trans_idx", [])]
         nta = 0
     for _ in range(nta):
+        ends = sorted(i1 for (i0, i1) in ref_blocks if 2 <= i1 < nx - 2 and float(x[i1]) not in trans)
+        if ends and rng.random() < 0.2:
+            # a splice exactly AT the last location of a reference stretch (x = s counts as downstream); half of the time at the
+            # last reference location of the whole fibre
+            i = ends[-1] if rng.random() < 0.5 else rng.choice(ends)
+            trans.append(float(x[i]))
+            gaps = [g for g in gaps if abs(g - i) > 1]
+            continue
         if not gaps:
             break
         i = rng.choice(gaps)
